@@ -23,10 +23,6 @@ DECIDED = [
 UNDECIDED = ['the path grammar itself (regex semantics);', 'forward/backward order independence as data;', 'recursive cycles through containers rely on CPython\'s recursion limit (stated assumption).']
 ASSUMPTIONS = ['recursion (as opposed to loops) terminates through RecursionError, which evaluation reports as EvalError']
 
-LOOP_TABLE = {
-    # qualname -> reason
-    'utils.import_name.<locals>._build_import_exception': 'walks the __cause__ chain of an ImportError raised by importlib: finite unless user code builds a cyclic cause chain',
-}
 
 
 NODE_LOOKUPS = {'get_node', '_get_node', 'get_child', 'evaluate_node', 'get_first_not_missing_node'}
@@ -197,6 +193,27 @@ def cycle_guard(loop):
     return False, 'no `if <current> in <visited>: raise` with <visited> growing in the loop body'
 
 
+def _exception_chain_walk(loop):
+    """`while e is not None: ...; e = getattr(e, '__cause__', None)` (or e.__cause__ / __context__): the loop variable is tested
+    against None and every re-assignment of it in the body takes the next link of the exception chain of that same variable"""
+    t = loop.test
+    if not (isinstance(t, ast.Compare) and len(t.ops) == 1 and isinstance(t.ops[0], ast.IsNot) and isinstance(t.left, ast.Name)
+            and isinstance(t.comparators[0], ast.Constant) and t.comparators[0].value is None):
+        return False
+    v = t.left.id
+    stores = [n for n in ast.walk(ast.Module(body=loop.body, type_ignores=[])) if isinstance(n, ast.Assign) and any(isinstance(x, ast.Name) and x.id == v for tg in n.targets for x in ast.walk(tg))]
+    if not stores or any(isinstance(n, (ast.AugAssign, ast.For, ast.With)) and any(isinstance(x, ast.Name) and x.id == v and isinstance(x.ctx, ast.Store) for x in ast.walk(n)) for n in ast.walk(ast.Module(body=loop.body, type_ignores=[]))):
+        return False
+    for st in stores:
+        val = st.value
+        ok = (isinstance(val, ast.Attribute) and val.attr in ('__cause__', '__context__') and isinstance(val.value, ast.Name) and val.value.id == v) or \
+             (isinstance(val, ast.Call) and isinstance(val.func, ast.Name) and val.func.id == 'getattr' and len(val.args) == 3 and isinstance(val.args[0], ast.Name) and val.args[0].id == v
+              and isinstance(val.args[1], ast.Constant) and val.args[1].value in ('__cause__', '__context__') and isinstance(val.args[2], ast.Constant) and val.args[2].value is None)
+        if not ok or len(st.targets) != 1 or not isinstance(st.targets[0], ast.Name):
+            return False
+    return True
+
+
 def r1(repo, run):
     n_chase = 0
     for fi in reachable_from_evaluate(repo):
@@ -212,8 +229,8 @@ def r1(repo, run):
             desc = 'while %s' % norm(loop.test)[:80]
             if kind in ('bounded-counter', 'shrinking-worklist'):
                 run.ok('C09.R1', where, desc, '%s: %s' % (kind, why))
-            elif fi.qualname in LOOP_TABLE and kind == 'reference-chasing' and not (fi.cls is not None and repo.is_subclass(fi.cls.name, 'ConfigNode')):
-                run.ok('C09.R1', where, desc, 'table: ' + LOOP_TABLE[fi.qualname])
+            elif kind == 'reference-chasing' and _exception_chain_walk(loop) and not (fi.cls is not None and repo.is_subclass(fi.cls.name, 'ConfigNode')):
+                run.ok('C09.R1', where, desc, 'walks the __cause__ / __context__ chain of an exception raised by the interpreter: finite unless user code builds a cyclic chain')
             elif (fi.cls is not None and fi.cls.name == 'XRefNode') or only_reached_from(repo, fi.qualname, {'XRefNode.ayns.on_evaluate_impl'}):
                 continue      # the reference chase of XRefNode is decided on its traces (xref_guard below), whatever its loop looks like
             elif kind == 'reference-chasing':
